@@ -68,6 +68,8 @@ func envInt(k string, d int) int {
 	return d
 }
 
+const candidates = 2
+
 func (a *adapter) init() {
 	a.nd = envInt("VERIF_ND", 3)
 	a.self = envInt("VERIF_SELF", 0)
@@ -77,6 +79,11 @@ func (a *adapter) init() {
 	}
 	a.t = loadTerm(a.nd)
 	a.w = node.NewWorld(a.nd, 1000)
+	if !a.t.on {
+		// one-term configurations: the genesis term record LISTS two nodes more than the chain has deputy seats (candidate
+		// nodes: registered, ranked behind the deputies, without a slot and without a vote on blocks)
+		a.w = node.NewWorld(a.nd+candidates, 1000)
+	}
 	a.t.extendWorld(a.w)
 	if a.self >= 1 && a.self <= len(a.w.Keys) {
 		deputynode.SetSelfNodeKey(a.w.Keys[a.self-1])
@@ -97,6 +104,8 @@ func (a *adapter) newNode(dir string) *node.Node {
 	n := a.w.NewNode(dir)
 	if a.t.on {
 		n.DM.DeputyCount = a.t.dc
+	} else {
+		n.DM.DeputyCount = a.nd
 	}
 	return n
 }
@@ -207,8 +216,13 @@ func (a *adapter) sigs(bi int, sg tla.Value) []types.SignData {
 	sort.Slice(els, func(i, j int) bool { return els[i].String() < els[j].String() })
 	for _, s := range els {
 		d, v := s.At(0).I(), s.At(1).I()
+		// signer 0 = anyone who is not a deputy of the block's term: a foreign key, or (every other behaviour of a one-term
+		// configuration) a candidate node the term record lists beyond the deputy seats
 		key := a.w.Outsider
-		if d >= 1 && d <= len(a.w.Keys) {
+		if !a.t.on && a.seq%2 == 1 {
+			key = a.w.Keys[a.nd]
+		}
+		if d >= 1 && d <= len(a.w.Keys) && (a.t.on || d <= a.nd) {
 			key = a.w.Keys[d-1]
 		}
 		out = append(out, node.Sign(h, key, v))
